@@ -593,6 +593,50 @@ fn exec_call_inner(ctx: &mut Ctx, idx: usize, c: &Value, keep: &mut Option<Owned
             v["handle_still_open"] = json!(still);
             v
         }
+        (_, "reopen_threads") => {
+            // K threads of one process (one descriptor table) reopen the same handle at the same moment, in a process that
+            // has not used the library's global procfs handle yet: concurrent first use
+            // (the handle is opened by the harness itself: a library lookup could already be the first use)
+            let pc = cs(path);
+            let src = unsafe { libc::openat(rootraw, pc.as_ptr(), libc::O_PATH | libc::O_NOFOLLOW | libc::O_CLOEXEC) };
+            if src < 0 {
+                return json!({"ok": false, "skip": "no handle"});
+            }
+            let handle = describe_fd(src);
+            let k = c.get("threads").and_then(|v| v.as_u64()).unwrap_or(4) as usize;
+            let fl = c["oflags"].as_i64().unwrap_or(0) as i32;
+            let use_c = api == "c";
+            let barrier = std::sync::Arc::new(std::sync::Barrier::new(k));
+            let mut ths = Vec::new();
+            for _ in 0..k {
+                let b = barrier.clone();
+                ths.push(std::thread::spawn(move || -> Value {
+                    b.wait();
+                    if use_c {
+                        let r = unsafe { pathrs_reopen(src, fl) };
+                        let v = if r >= 0 { describe_fd(r) } else { capi_error(r) };
+                        if r >= 0 {
+                            unsafe { libc::close(r) };
+                        }
+                        v
+                    } else {
+                        let bfd = unsafe { BorrowedFd::borrow_raw(src) };
+                        match pathrs::HandleRef::from_fd(bfd).reopen(OpenFlags::from_bits_retain(fl)) {
+                            Ok(f) => describe_fd(f.as_raw_fd()),
+                            Err(e) => kind_json(&e),
+                        }
+                    }
+                }));
+            }
+            let outs: Vec<Value> = ths.into_iter().map(|t| t.join().unwrap_or(json!({"ok": false, "panic": "thread panicked"}))).collect();
+            let panicked = outs.iter().any(|o| o.get("panic").is_some());
+            unsafe { libc::close(src) };
+            let mut v = json!({"ok": outs.iter().all(|o| o.get("ok").and_then(|x| x.as_bool()).unwrap_or(false)), "threads": outs, "handle": handle});
+            if panicked {
+                v["panic"] = json!("thread panicked");
+            }
+            v
+        }
         (_, "reopen_in_thread") => {
             // the calling thread has its own descriptor table (unshare(CLONE_FILES)); the thread-group
             // leader holds *other* files at the descriptor numbers the thread is about to get
